@@ -264,6 +264,13 @@ impl Epoch {
     }
 
     #[must_use]
+    /// Returns the weekday of the Gregorian date of this epoch in its own time scale.
+    pub(crate) fn gregorian_weekday(&self) -> Weekday {
+        // 1900-01-01 was a Monday in every time scale, so count the days since then in this time scale.
+        Self::from_tai_duration(self.duration + self.time_scale.gregorian_epoch_offset()).weekday()
+    }
+
+    #[must_use]
     /// Returns weekday (uses the TAI representation for this calculation).
     pub fn weekday(&self) -> Weekday {
         // J1900 was a Monday so we just have to modulo the number of days by the number of days per week.
